@@ -170,8 +170,11 @@ class ResInterp(FlowInterp):
                         st = sput(st, "origin", tn, "caller:%s" % src if not hs else "handle")
                     elif tn in self.owner_fields:
                         st = sput(st, "null", tn, "notnone")
-                    else:
+                    elif isinstance(v, ast.Constant) and isinstance(v.value, bool):
                         st = frozenset(x for x in st if not (x[0] == "null" and x[1] == tn))
+                        st = sput(st, "bool", tn, v.value)
+                    else:
+                        st = frozenset(x for x in st if not (x[0] in ("null", "bool") and x[1] == tn))
                 elif isinstance(t, ast.Name):
                     hs = set()
                     if isinstance(v, ast.IfExp):
